@@ -186,7 +186,7 @@ def spec_failures(case, line):
         bad.append('C13.shutdown-not-last')
     # C13: no dial unless enabled: every 'd' directly follows 'lC'
     for a, b in zip(p['task'], p['task'][1:]):
-        if b == 'd' and a != 'lC':
+        if b == 'd' and a[:2] != 'lC':
             bad.append('C13.dial-without-connecting')
     # C11: tx ids on the wire advance, consecutive ones differ; wire order = submission order
     rtu = bool(cfg.get('rtu'))
@@ -318,6 +318,28 @@ def spec_failures(case, line):
             c = comp_of.get(i)
             if c is None or c[1] != cls_of[fr[1]] or c[2] != now or cs != j:
                 bad.append('C11.request-answered-in-time-does-not-complete-with-its-reply')
+    # C13 / C14: a wait state is left exactly when the announced delay is over - at the first instant of the script at or after
+    # wait_start + delay (timer resolution) - whatever commands are handled in between; it is left earlier only by a disable
+    # or by the end of the task
+    all_ticks = [0]
+    tnow = 0
+    for st in script:
+        if st[0] == 'T':
+            tnow += st[1]
+            all_ticks.append(tnow)
+    lts = [t for t in p['task'] if t[0] == 'l']
+    for k, t in enumerate(lts):
+        if t[:2] in ('lF', 'lW') and '@' in t:
+            d, t0 = t[2:].split('@')
+            due = fires_at(int(t0) + int(d))
+            first = min([x for x in all_ticks if x >= due], default=None)
+            nxt = lts[k + 1] if k + 1 < len(lts) else None
+            if nxt is None:
+                if first is not None and not p['done']:
+                    bad.append('C13.wait-state-not-left-when-the-announced-delay-is-over')
+            elif nxt[:2] == 'lC':
+                if '@' in nxt and int(nxt.split('@')[1]) != first:
+                    bad.append('C13.reconnect-attempt-not-at-wait-start-plus-the-announced-delay')
     # C10: Shutdown is only reported when the task is gone, or when the submitting try_send itself was rejected
     if not p['done']:
         for i, c, t in p['comp']:
